@@ -426,18 +426,32 @@ def e2_fast_sis(G, tau, gamma, tw, rw, I0, tmin, tmax, log, sim, fails, counters
             return False
         T = now + e[2]
         if T < R[v]:
+            # the drawn time falls inside the target's current infectious period.  Three samplings of the next *useful* contact are exact
+            # (memorylessness) and are all accepted; which one the code uses is read off the entries that follow:
+            #   (a) re-draw from the target's recovery:      second Exp, T = R[v] + d2          (what the code does today)
+            #   (c) shift the one draw to the recovery:      T = R[v] + d1
+            #   (b) schedule the wasted contact as it is:    T = now + d1  (it fires on an infected target and re-schedules itself)
+            def consistent(Tc, skip):
+                nxt = cur.log[cur.i + skip] if cur.i + skip < len(cur.log) else None
+                is_add = nxt is not None and nxt[0] == 'qadd' and 'trans' in nxt[2] and nxt[3] == u and nxt[4] == v
+                if Tc < R[u] and Tc < tmax:
+                    return is_add and close(nxt[1], Tc, 1e-12, 0)
+                return not is_add
             e2 = cur.peek()
-            if e2 is None or e2[0] != 'expo':
-                fails.append(('scheduling_incomplete', {'why': 'drawn time falls inside the target\'s infectious period and no delay was re-drawn from its end',
-                                                        'pair': (u, v), 'T': T, 'target_recovers': R[v], 'found': e2}))
+            if e2 is not None and e2[0] == 'expo' and close(e2[1], rate) and consistent(R[v] + e2[2], 1):
+                cur.next('expo')
+                bumpc('rate_params_checked')
+                bumpc('sis_redraws_seen')
+                T = R[v] + e2[2]
+            elif consistent(R[v] + e[2], 0):
+                bumpc('sis_shifted_draws_seen')
+                T = R[v] + e[2]
+            elif consistent(T, 0):
+                bumpc('sis_wasted_contacts_scheduled')
+            else:
+                fails.append(('scheduling_incomplete', {'why': 'drawn time falls inside the target\'s infectious period and the next useful contact was neither re-drawn, shifted nor scheduled',
+                                                        'pair': (u, v), 'T': T, 'target_recovers': R[v], 'source_recovers': R[u], 'found': e2}))
                 return False
-            cur.next('expo')
-            bumpc('rate_params_checked')
-            bumpc('sis_redraws_seen')
-            if not close(e2[1], rate):
-                fails.append(('transmission_rate', {'pair': (u, v), 'used': e2[1], 'chain': rate}))
-                return False
-            T = R[v] + e2[2]
         if T < R[u] and T < tmax:
             if (u, v) in pending:
                 fails.append(('double_pending', {'pair': (u, v)}))
